@@ -147,6 +147,23 @@ def judge(case):
                                 "handed by get_one_molecule_pt_as_universe")
             except Exception as e:
                 msgs.append(f"one-molecule pseudotrajectory: {type(e).__name__}: {e}")
+        if not msgs and K >= 2 and arr.dtype == np.float64:
+            # the caller reorders its grid array in place between constructing the pseudotrajectory and asking for the frames:
+            # every frame must still be the placement of ONE row - of the array as it was at construction or as it is now
+            try:
+                arr3 = arr.copy()
+                with quiet():
+                    pt3 = Pseudotrajectory(read_molecule(p1), read_molecule(p2), arr3)
+                    arr3[:] = arr3[::-1].copy()
+                    late = np.array([np.array(ts.positions, dtype=float) for ts in pt3.get_pt_as_universe().trajectory])
+                fr = np.array(frames)
+                ok_then = late.shape == fr.shape and np.abs(late - fr).max() <= ATOL
+                ok_now = late.shape == fr.shape and np.abs(late - fr[::-1]).max() <= ATOL
+                if not (ok_then or ok_now):
+                    msgs.append("grid array reordered in place between construction and first use: the frames are neither the "
+                                "placements of the rows at construction nor of the rows at generation time")
+            except Exception as e:
+                msgs.append(f"pseudotrajectory on an array edited after construction: {type(e).__name__}: {e}")
         if not msgs and case.get("writer_ops"):
             msgs += judge_writer(case, d, p1, p2, arr, frames, names)
         return msgs
